@@ -868,9 +868,8 @@ package stun
 
 // ---- Agent (C13: transaction-table specification; C14: lock discipline) ----
 
-//@ props C14
-//@ guard Agent.mux: transactions, closed, handler
-//@ shared Agent: sync mux
+//@ guard Agent.mux [C14]: transactions, closed, handler
+//@ shared Agent [C14]: sync mux
 
 // Event log (ghost): every handler invocation appends (transaction id, error, message) at index ev_n.
 //@ func Handler(h, e)
@@ -1357,11 +1356,10 @@ package stun
 // What is proved is what each method does to the client's table, to the connection (ghost write log), to the agent
 // (ghost log of Start/Stop requests) and to the handlers (the event log above) when it runs alone. Interleavings of
 // goroutines are NOT explored: the lock discipline below and the per-call contracts are the sequential half of the argument.
-//@ props C10 C15
-//@ guard Client.mux: t, closed
+//@ guard Client.mux [C10 C15]: t, closed
 // every other field of the shared Client is either only accessed through sync/atomic, never written once the client
 // has been built (constructor and options run before it is shared), or a synchronisation object used through its methods
-//@ shared Client: atomic rto, maxAttempts; frozen c, a, close, rtoRate, closeConn, clock, handler, collector; sync wg, mux
+//@ shared Client [C15]: atomic rto, maxAttempts; frozen c, a, close, rtoRate, closeConn, clock, handler, collector; sync wg, mux
 
 // ClientInv: initialised client, mutex free, every registered transaction carries its key.
 //@ define ClientInv(c) = c != nil && gmap(held)[region(c)] == 0 && region(c.t) != 0
